@@ -1173,6 +1173,8 @@ class Checker:
 def check_log(spec, log, value_of=None, strict_args=True, prepare=None):
     """Runs the checker over a recorded log. Returns (rejection | None, checker)."""
     ck = Checker(spec, value_of=value_of, strict_args=strict_args)
+    if spec.get("style"):
+        ck.check_allowed_order = False      # declaration styles attach events in another order (not C13's subject there)
     if prepare:
         prepare(ck)
     ck.begin_ns = {}
